@@ -9,12 +9,14 @@ LEVEL = "proof"
 LEVEL_TEXT = ("Machine-checked Lean 4 theorems (all row-length vectors, all element types/contents, no bounds) that the "
               "model of RaggedShape(lengths)/RaggedArray construction has the exclusive-prefix-sum geometry and reads back "
               "exactly the rows it was built from (iteration/tolist/len/size/lengths/ravel/astype), accepts a flat buffer iff "
-              "its size matches and then cuts it at the lengths; the model is tied to /repo by a correspondence check "
+              "its size matches and then cuts it at the lengths; flat<->(row,col) maps invert each other for every placement of "
+              "empty rows, index_array lists the row of every position, to/from numpy round-trips every rectangular matrix; "
+              "the model is tied to /repo by a correspondence check "
               "(implementation vs compiled Lean model vs Lean spec vs CPython oracle on exhaustive small shapes + random shapes "
               "x dtypes, incl. geometry internals, unravel/ravel maps, to/from numpy, save/load, from_dict).")
 LEVEL_NOTE = ("Trusted: Lean kernel; axioms propext/Classical.choice/Quot.sound; the hand-written model of the constructor "
-              "(modelled, tied by differential correspondence only); numpy file I/O; dtype tags, save/load, to/from numpy and the "
-              "flat<->(row,col) maps are correspondence-only facets in this round.")
+              "(modelled, tied by differential correspondence only); numpy file I/O; dtype tags, save/load, from_dict and equals "
+              "are correspondence-only facets.")
 TECHNIQUE = "Lean 4 proof of model = list-of-rows spec; model tied to code by differential correspondence"
 DESIGN_REF = "6.1"
 LEAN_MODULES = ["NpsVerif.Props.C01"]
